@@ -402,7 +402,7 @@ static int sbdf_write_objects(sbdf_object const* o, FILE* f, int packed_array)
 
 					if (length)
 					{
-						if (fwrite(*data, 1, length, f) != length)
+						if (fwrite(*data, 1, length, f) != length || ferror(f))
 						{
 							return SBDF_ERROR_OUT_OF_MEMORY;
 						}
@@ -433,7 +433,7 @@ static int sbdf_write_objects(sbdf_object const* o, FILE* f, int packed_array)
 		memcpy(data, o->data, o->count * elem_size);
 		sbdf_swap(data, elem_size, o->count);
 
-		if (fwrite(data, elem_size, (size_t)(o->count), f) != (size_t)(o->count))
+		if (fwrite(data, elem_size, (size_t)(o->count), f) != (size_t)(o->count) || ferror(f))
 		{
 			free(data);
 			return SBDF_ERROR_IO;
